@@ -352,5 +352,9 @@ PROPS["C15"]["explanation"] += " (UNLIMSIZE) wherever a variable's unlimited ext
 PROPS["C03"]["rules"] = PROPS["C03"]["rules"] + [rules_sd.rule_unlimited_size_per_variable]
 PROPS["C03"]["explanation"] += " (UNLIMSIZE) the stride validation of SDreaddata and the dimensions SDgetinfo reports take the size of an unlimited dimension from the variable's own record count in HDF files."
 
+PROPS["C02"]["rules"] = PROPS["C02"]["rules"] + [rules_dd.rule_ddblock_extent, rules_dd.rule_end_extension]
+PROPS["C02"]["explanation"] += " (DDBLOCKSZ) every offset computed over the descriptors of a DD block counts the block header, so nothing is allocated inside a block. (ENDEXT) whoever advances the end-of-file mark writes at the new end or records FILE_END_DIRTY, so the file is extended over every reserved byte before descriptors pointing there are flushed."
+PROPS["C17"]["rules"] = PROPS["C17"]["rules"] + [rules_dd.rule_end_extension]
+
 NOT_APPLICABLE = {}
 
